@@ -5,14 +5,32 @@ package vsync
 
 import (
 	"sync"
+	"sync/atomic"
 
 	verifrt "github.com/Syuparn/pangaea/verifrt"
 )
 
 // RWMutex mirrors sync.RWMutex.
-type RWMutex struct{ mu sync.RWMutex }
+type RWMutex struct {
+	mu   sync.RWMutex
+	self atomic.Pointer[RWMutex] // address at first use: a lock must not be copied after first use
+}
+
+// used notes the first use and reports a value that was copied after it (the copy carries the lock state of the
+// moment of the copy - a reader that does not exist, a writer that will never unlock - which no schedule of the
+// cooperative scheduler can show, because the copy is a new lock to it).
+func (m *RWMutex) used() {
+	if m.self.CompareAndSwap(nil, m) {
+		return
+	}
+	if m.self.Load() != m {
+		verifrt.ReportMisuse("a sync.RWMutex value was copied after its first use")
+		m.self.Store(m)
+	}
+}
 
 func (m *RWMutex) Lock() {
+	m.used()
 	if s := verifrt.CurrentSession(); s != nil {
 		s.Acquire(m, true)
 		return
@@ -20,6 +38,7 @@ func (m *RWMutex) Lock() {
 	m.mu.Lock()
 }
 func (m *RWMutex) Unlock() {
+	m.used()
 	if s := verifrt.CurrentSession(); s != nil {
 		s.Release(m, true)
 		return
@@ -27,6 +46,7 @@ func (m *RWMutex) Unlock() {
 	m.mu.Unlock()
 }
 func (m *RWMutex) RLock() {
+	m.used()
 	if s := verifrt.CurrentSession(); s != nil {
 		s.Acquire(m, false)
 		return
@@ -34,6 +54,7 @@ func (m *RWMutex) RLock() {
 	m.mu.RLock()
 }
 func (m *RWMutex) RUnlock() {
+	m.used()
 	if s := verifrt.CurrentSession(); s != nil {
 		s.Release(m, false)
 		return
@@ -50,9 +71,23 @@ func (r *rlocker) Lock()   { (*RWMutex)(r).RLock() }
 func (r *rlocker) Unlock() { (*RWMutex)(r).RUnlock() }
 
 // Mutex mirrors sync.Mutex.
-type Mutex struct{ mu sync.Mutex }
+type Mutex struct {
+	mu   sync.Mutex
+	self atomic.Pointer[Mutex]
+}
+
+func (m *Mutex) used() {
+	if m.self.CompareAndSwap(nil, m) {
+		return
+	}
+	if m.self.Load() != m {
+		verifrt.ReportMisuse("a sync.Mutex value was copied after its first use")
+		m.self.Store(m)
+	}
+}
 
 func (m *Mutex) Lock() {
+	m.used()
 	if s := verifrt.CurrentSession(); s != nil {
 		s.Acquire(m, true)
 		return
@@ -60,6 +95,7 @@ func (m *Mutex) Lock() {
 	m.mu.Lock()
 }
 func (m *Mutex) Unlock() {
+	m.used()
 	if s := verifrt.CurrentSession(); s != nil {
 		s.Release(m, true)
 		return
